@@ -4,6 +4,11 @@ import json, os
 ROOT = os.path.dirname(os.path.dirname(os.path.abspath(__file__)))
 props = [json.loads(l) for l in open(ROOT + "/properties.jsonl")]
 CLAIMED = {
+ "C25": dict(
+   technique="Lean 4 proof (induction over tuple length + kernel `decide` on the regenerated space table) of a hand model of sobolevspace.py; exhaustive model-vs-implementation correspondence on a finite domain",
+   text="Theorems for directional spaces of every length: < is exactly the strict part of componentwise inclusion w.r.t. the declared lattice (C25_lt_iff_proper_subspace, C25_table_is_declared_lattice), irreflexive, asymmetric, transitive within a spatial dimension, > / <= / >= / membership derived consistently, == is two-sided inclusion, and where comparisons raise. The table of predefined spaces is regenerated each run (translator) and the executable model is compared with the live classes on every ordered pair of 12 predefined + all directional spaces with orders {0,1,2,3,inf} of length <=2 (quick) / <=3 (thorough): 6 outcomes per pair. The genuine defects this found on the pinned tree were repaired by a fix: commit.",
+   note="Trusted: Lean kernel; translator/correspondence in harness/props/c25.py; meaning of 'subspace' for symbolic spaces = declared cover relations + componentwise rule (Spec section of Props/C25.lean). Directional orders restricted to those __getitem__ maps to a space; pairs (directional, HDivDiv/HEin/HCurlDiv) raise and are outside the relation; transitivity within one spatial dimension.",
+   design="5 C25"),
  "C26": dict(
    technique="Lean 4 proof by kernel `decide` over cell tables regenerated from ufl/cell.py on every run (translator tie); exhaustive finite domain",
    text="Proof over the complete finite domain: the translator re-reads _sub_entity_celltypes and queries the live Cell/TensorProductCell API (every dimension, every named accessor, the full truth table of < and == over 76 cells) into Gen/Cells.lean; 11 theorems (Euler relation, sub-entity dimensions and recursive consistency, ridge-in-two-facets, facets/ridges/peaks, product-polytope f-vectors, strict total order) are re-checked by the Lean kernel against that data each run. A table change that keeps the property leaves them provable; one that breaks it fails a named theorem and the Python oracle names the cell.",
